@@ -270,3 +270,27 @@ func vpH_C07_T_validation_slow() {
 	vpAssert("C07.no-spurious-edge", s.e.IsLeader() && s.cb.demotes == 0)
 	vpAssert("C07.token-stable", s.e.Token() == tok)
 }
+
+// vpH_C07_T_mixed_priority: mixed configuration — the leader has priority 10 with takeover disabled, another
+// instance (priority 5, takeover enabled) starts at a symbolic instant and behaves by the rules: it reads the
+// record and replaces it only if its own priority is strictly greater than the one stored there. The leader's
+// record must never give it that opportunity: never disturbed.
+func vpH_C07_T_mixed_priority() {
+	tm := vpTimings[0]
+	s := vpLeadingInstance(tm, 0, func(cfg *ElectionConfig) { cfg.Priority = 10 })
+	s.st.ttl = 0
+	s.kv.opLeft = 40
+	tok := s.e.Token()
+	go func() {
+		vpDelay("other-starts", 0, 2*tm.H)
+		if s.st.live() && vpRecParses(s.st.val) && 5 > vpRecPrio(s.st.val) {
+			s.st.write("env:b", "update", vpRecMk("b", "tok-b", 5), false, s.st.lastSeq)
+			vpEvent("b-took-over")
+		}
+	}()
+	time.Sleep(3*tm.H + tm.H/2)
+	vpQuiesce()
+	vpCover("C07.mixed-priority")
+	vpAssert("C07.no-spurious-edge", s.e.IsLeader() && s.cb.demotes == 0)
+	vpAssert("C07.owner-stable", s.st.live() && vpRecID(s.st.val) == "a" && vpRecTok(s.st.val) == tok)
+}
